@@ -70,9 +70,18 @@ def run(tier):
     res = vlib.Result(PID, tier, "exploration")
     progs = list(programs(tier))
     vlib.log(f"[C01] {len(progs)} programs")
-    specs = [{"id": i, "steps": [src], "opts": {"dialect": "all"}} for i, (_, src) in enumerate(progs)]
-    st = vlib.run_sut("run", specs)
+    # the oracle runs first (under its own time / memory limits): a program it has to give up on for lack of resources is not
+    # given to the subject either (such programs made an engine child grow to tens of GB in the thorough tier)
     py = vlib.run_cpython([{"src": src} for _, src in progs])
+    def oracle_gave_up(p):
+        return p is not None and (p.get("oracle_timeout") or p.get("oracle_memory"))
+    run_idx = [i for i, p in enumerate(py) if not oracle_gave_up(p)]
+    specs = [{"id": k, "steps": [progs[i][1]], "opts": {"dialect": "all"}} for k, i in enumerate(run_idx)]
+    outs = vlib.run_sut("run", specs)
+    st = [{"steps": [{"out": [], "err": None, "res": None}]}] * len(progs)
+    st = list(st)
+    for i, o in zip(run_idx, outs):
+        st[i] = o
     fam_counts, skipped, both_fail, distinct = {}, {}, 0, set()
     for (fam, src), p, s in zip(progs, py, st):
         f0 = fam.split("/")[0]
